@@ -672,6 +672,10 @@ def pin_stream_whileStream_Next : List String := ["func (r *whileStream[T]) Next
   "r.has = false",
   "return r.item, nil"]
 
+/-- `newSampler` in `xmath/xrand`: signature and full statement list, locals renamed positionally -/
+def pin_xmath_xrand_newSampler : List String := ["func newSampler[T0 randRand](p0 T0, p1 int) sampler[T0]",
+  "return sampler[T0]{i: 0, first: true, w: math.Exp(math.Log(p0.Float64()) / float64(p1)), k: p1, r: p0}"]
+
 /-- `rSampleStream` in `xmath/xrand`: signature and full statement list, locals renamed positionally -/
 def pin_xmath_xrand_rSampleStream : List String := ["func rSampleStream[T0 any, T1 randRand](p0 context.Context, p1 T1, p2 stream.Stream[T0], p3 int) ([]T0, error)",
   "defer p2.Close()",
@@ -703,6 +707,13 @@ def pin_xmath_xrand_rSampleStream : List String := ["func rSampleStream[T0 any, 
   "}",
   "rShuffle(p1, v0)",
   "return v0, nil"]
+
+/-- `rShuffle` in `xmath/xrand`: signature and full statement list, locals renamed positionally -/
+def pin_xmath_xrand_rShuffle : List String := ["func rShuffle[T0 any, T1 randRand](p0 T1, p1 []T0)",
+  "p0.Shuffle(len(p1), func(v0, v1 int) { })",
+  "func#0 {",
+  "p1[v0], p1[v1] = p1[v1], p1[v0]",
+  "}"]
 
 /-- `Chunk` in `xslices`: signature and full statement list, locals renamed positionally -/
 def pin_xslices_Chunk : List String := ["func Chunk[T0 any](p0 []T0, p1 int) [][]T0",
